@@ -153,6 +153,18 @@ func parallel(n, workers int, f func(i int)) {
 	wg.Wait()
 }
 
+// systemFailure recognises toolchain failures that say nothing about the code under test
+// (they must end in "no verdict", never in an observation)
+func systemFailure(out []byte) bool {
+	for _, pat := range []string{"no space left on device", "cannot allocate memory", "out of memory", "signal: killed", "too many open files",
+		"input/output error", "resource temporarily unavailable", "read-only file system"} {
+		if bytes.Contains(out, []byte(pat)) {
+			return true
+		}
+	}
+	return false
+}
+
 func trunc(s string, n int) string {
 	if len(s) > n {
 		return s[:n] + "..."
@@ -278,6 +290,9 @@ func corpusMain(args []string) error {
 			outb, err := c.CombinedOutput()
 			if err == nil {
 				continue
+			}
+			if systemFailure(outb) {
+				return fmt.Errorf("toolchain failure while compiling the corpus (not an observation):\n%s", trunc(string(outb), 2000))
 			}
 			locs := pkgRe.FindAllSubmatchIndex(outb, -1)
 			if len(locs) == 0 {
